@@ -73,6 +73,10 @@ def echoPred (cfg : Cfg) (cmd : Bytes) (rb : Bytes) : Bool :=
 
 def promptPred (cfg : Cfg) (rb : Bytes) : Bool := cfg.promptP (window rb cfg.depth)
 
+/-- `ReadUntilAnyPrompt`'s predicate: some pattern matches the search window -/
+def anyPromptPred (depth : Nat) (prompts : List (Bytes → Bool)) (rb : Bytes) : Bool :=
+  prompts.any fun p => p (window rb depth)
+
 def rstripSpaces (l : Bytes) : Bytes := trimRight (· == SP) l
 
 /-- `bytes.Trim(b, cutset)` for a byte cutset -/
